@@ -300,3 +300,57 @@ pub fn first_diff(a: &M, b: &M) -> Diff {
     }
     go(a, b, 0)
 }
+
+
+/// The comparable key as its format is documented in the source (depth byte, level byte,
+/// then string bytes / the order-preserving image of the number as a double; containers
+/// list their children one level deeper; object members as key then value). Used only to
+/// recognise the known findings of C14 exactly: a disagreement is a known one only when
+/// the library's keys are these keys.
+pub fn ref_key(m: &M) -> Vec<u8> {
+    fn go(m: &M, depth: u8, out: &mut Vec<u8>) {
+        out.push(depth);
+        match m {
+            M::Null => out.push(7),
+            M::Bool(true) => out.push(2),
+            M::Bool(false) => out.push(1),
+            M::Str(s) => {
+                out.push(4);
+                out.extend_from_slice(s.as_bytes());
+            }
+            M::Num(n) => {
+                out.push(3);
+                let f = match n {
+                    N::I(v) => *v as f64,
+                    N::U(v) => *v as f64,
+                    N::F(f) => *f,
+                };
+                // the encoding keeps no NaN payload: every NaN is the canonical one
+                let f = if f == 0.0 { 0.0 } else if f.is_nan() { f64::NAN } else { f };
+                let s = f.to_bits() as i64;
+                let v = s ^ (((s >> 63) as u64) >> 1) as i64;
+                let mut b = v.to_be_bytes();
+                b[0] ^= 0x80;
+                out.extend_from_slice(&b);
+            }
+            M::Arr(a) => {
+                out.push(6);
+                for x in a {
+                    go(x, depth.wrapping_add(1), out);
+                }
+            }
+            M::Obj(o) => {
+                out.push(5);
+                for (k, v) in o {
+                    out.push(depth.wrapping_add(1));
+                    out.push(4);
+                    out.extend_from_slice(k.as_bytes());
+                    go(v, depth.wrapping_add(1), out);
+                }
+            }
+        }
+    }
+    let mut out = vec![];
+    go(m, 0, &mut out);
+    out
+}
